@@ -491,7 +491,15 @@ pub const BYTE_CLASSES: [u8; 26] = [
 pub const U16_CLASSES: [u16; 13] = [0, 0x41, 0x7F, 0x80, 0x7FF, 0x800, 0xD7FF, 0xD800, 0xDBFF, 0xDC00, 0xDFFF, 0xE000, 0xFFFF];
 
 /// compare the three decoders on one byte string; returns a message on disagreement
+/// the decoders never panic in std; a panic inside bumpalo's is a disagreement like any other (and must not kill the sweep)
 pub fn check_bytes(bump: &Bump, bytes: &[u8]) -> Option<String> {
+    match std::panic::catch_unwind(std::panic::AssertUnwindSafe(|| check_bytes_inner(bump, bytes))) {
+        Ok(r) => r,
+        Err(e) => Some(format!("decoding {:02x?} panicked ({}) where std's from_utf8 / from_utf8_lossy return normally", bytes, crate::sim::panic_msg(e))),
+    }
+}
+
+fn check_bytes_inner(bump: &Bump, bytes: &[u8]) -> Option<String> {
     let mut v = BVec::with_capacity_in(bytes.len(), bump);
     v.extend_from_slice_copy(bytes);
     let rs = BString::from_utf8(v);
@@ -536,6 +544,13 @@ pub fn check_bytes(bump: &Bump, bytes: &[u8]) -> Option<String> {
 }
 
 pub fn check_u16(bump: &Bump, units: &[u16]) -> Option<String> {
+    match std::panic::catch_unwind(std::panic::AssertUnwindSafe(|| check_u16_inner(bump, units))) {
+        Ok(r) => r,
+        Err(e) => Some(format!("from_utf16_in({:04x?}) panicked ({}) where std's from_utf16 returns normally", units, crate::sim::panic_msg(e))),
+    }
+}
+
+fn check_u16_inner(bump: &Bump, units: &[u16]) -> Option<String> {
     let canary: &mut [u8] = bump.alloc_slice_fill_copy(24, 0xC5u8);
     let canary_ptr = canary.as_ptr();
     let rs = BString::from_utf16_in(units, bump);
